@@ -3,4 +3,5 @@ package all
 
 import (
 	_ "verifsim/worlds/conn"
+	_ "verifsim/worlds/mesh"
 )
